@@ -518,7 +518,7 @@ def is_structural(label, n):
 # point (constructor, Maybe / Either / conditional presence, dictionary size, one-bit flag), the second any; 'struct-both' = both structural
 # (container types whose content types are explored as roots themselves)
 PAIR_RULE = {'BlockExtra': 'struct-both', 'AccountBlock': 'struct-both', 'ShardStateUnsplit': 'struct-both', 'McBlockExtra': 'struct-first', 'McStateExtra': 'struct-first',
-             'InMsg': 'struct-first', 'OutMsg': 'struct-first', 'Transaction': 'struct-first', 'TransactionDescr': 'struct-first', 'MsgEnvelope': 'struct-first',
+             'InMsg': 'struct-both', 'OutMsg': 'struct-both', 'Transaction': 'struct-first', 'TransactionDescr': 'struct-first', 'MsgEnvelope': 'struct-first',
              'ValueFlow': 'struct-first', 'ShardDescr': 'struct-first', 'BlockCreateStats': 'struct-first'}
 
 
